@@ -35,13 +35,41 @@ def sh(cmd, cwd=None, timeout=900, env=None):
 
 
 def hygiene():
-    """no Admitted/Axiom/... anywhere in the development (comments excluded crudely)"""
+    """no Admitted / admit / Axiom / Parameter / Conjecture / guard switches anywhere in the development, and no
+    Variable / Hypothesis / Context outside a Section (comments and string literals are removed first)"""
     bad = []
+    decl = re.compile(r'(?:^|(?<=[.]\s))\s*(?:Local\s+|Global\s+|Polymorphic\s+)?'
+                      r'(Axiom|Axioms|Parameter|Parameters|Conjecture|Conjectures|Admitted|Admit\s+Obligations)\b', re.M)
+    switches = re.compile(r'\b(Unset\s+Guard|Unset\s+Positivity|Unset\s+Universe|bypass_check|type-in-type|impredicative-set|'
+                          r'Guard\s+Checking|Positivity\s+Checking|Universe\s+Checking)\b')
+    tactic = re.compile(r'\b(admit|give_up)\b')
+    secvar = re.compile(r'^\s*(Variable|Variables|Hypothesis|Hypotheses|Context)\b')
     for f in glob.glob(os.path.join(COQ, '**', '*.v'), recursive=True):
         txt = open(f).read()
-        txt = re.sub(r'\(\*.*?\*\)', '', txt, flags=re.S)
-        for m in FORBIDDEN.finditer(txt):
-            bad.append('%s: %s' % (os.path.relpath(f, VERIF), m.group(0)))
+        txt = re.sub(r'"(?:[^"]|"")*"', '""', txt)
+        # nested comments: strip innermost repeatedly
+        prev = None
+        while prev != txt:
+            prev = txt
+            txt = re.sub(r'\(\*(?:(?!\(\*|\*\)).)*\*\)', ' ', txt, flags=re.S)
+        rel = os.path.relpath(f, VERIF)
+        for m in decl.finditer(txt):
+            bad.append('%s: %s' % (rel, m.group(1)))
+        for m in switches.finditer(txt):
+            bad.append('%s: %s' % (rel, m.group(1)))
+        for m in tactic.finditer(txt):
+            bad.append('%s: %s' % (rel, m.group(1)))
+        depth = 0
+        for line in txt.split('\n'):
+            if re.match(r'^\s*Section\s+\w+\s*\.', line):
+                depth += 1
+            elif re.match(r'^\s*End\s+\w+\s*\.', line) and depth > 0:
+                depth -= 1
+            elif depth == 0 and secvar.match(line):
+                bad.append('%s: %s outside a section' % (rel, secvar.match(line).group(1)))
+    for opt in ('-type-in-type', '-impredicative-set', '-vos', '-vok'):
+        if opt in open(os.path.join(COQ, '_CoqProject')).read():
+            bad.append('_CoqProject: ' + opt)
     return bad
 
 
